@@ -175,7 +175,7 @@ def generic_harness_check(ctx, name, rule, assumptions, level="exploration", wor
         cov["exhaustive"] = bool(exhaustive) and not timed_out and not ctx.violations
     if post:
         post(ctx, m, cov)
-    if not getattr(ctx, "keep_out", False) and not ctx.violations:
+    if not getattr(ctx, "keep_out", False) and not ctx.violations and not getattr(ctx, "broken", False):
         shutil.rmtree(wd, ignore_errors=True)
     mn = (min_nontrivial or {}).get(ctx.tier, 2) if isinstance(min_nontrivial, dict) else (min_nontrivial or 2)
     return cov, mn
